@@ -62,7 +62,7 @@ def run(cx):
 
 
 # -------------------------------------------------------------------------------------- R14a / c / f
-OWN = [("''", C("")), ("'-'", C("-")), ("NAME", C("RED")), ("INT", C(107)), ("TUPLE", C((1, 2, 3))), ("GRAY", C("g3"))]
+OWN = [("''", C("")), ("'-'", C("-")), ("NAME", C("RED")), ("INT", C(107)), ("INT 0", C(0)), ("TUPLE", C((1, 2, 3))), ("TUPLE (0,0,0)", C((0, 0, 0))), ("GRAY", C("g3"))]
 PARENT = [("no parent", None), ("parent coloured", C("BLUE")), ("parent default", C(None))]
 
 
